@@ -369,6 +369,10 @@ def describe(t):
     return d
 
 
+def _case_key(case):
+    return json.dumps([case["vars"], case["lims"], case["map"], case["fvs"]], sort_keys=True)
+
+
 def store_tasks(chk, gen, bad):
     """function-level replays of the TLC-generated cases"""
     rng = chk.rng
@@ -377,24 +381,20 @@ def store_tasks(chk, gen, bad):
     for fam in ("one", "one2", "two"):
         for i, (case, D) in enumerate(gen.get(fam, [])):
             full = bool(i % 2)
-            cmp_ = 1
-            # every case through the tuple store, before and after rounding
-            tasks.append((case, D, "tvs", False, full, cmp_))
-            tasks.append((case, D, "tvs", True, full, 0))
-            # item store / gvar glyph: every case in the thorough tier, a seeded share in quick
-            share = 1.0 if not quick else (0.35 if fam != "two" else 0.2)
-            if rng.random() < share:
-                tasks.append((case, D, "ivs", rng.random() < 0.5, full, 0))
-            if rng.random() < share:
+            # every case through the tuple store before rounding (exact); after rounding, through the
+            # item store and through instantiateGvarGlyph: all in the thorough tier, a seeded share in quick
+            tasks.append((case, D, "tvs", False, full, 1))
+            if not quick or rng.random() < 0.3:
+                tasks.append((case, D, "tvs", True, full, 0))
+            if not quick or rng.random() < 0.15:
+                tasks.append((case, D, "ivs", True, full, 0))
+            if not quick or rng.random() < 0.15:
                 tasks.append((case, D, "gvar", rng.random() < 0.5, full, 0))
-    fvcases = gen.get("fv", [])
-    badkeys = {json.dumps(c, sort_keys=True) for c, _ in bad}
-    nfv = 0
-    for case, D in fvcases:
-        isbad = json.dumps({k: v for k, v in case.items() if k != "avar_knots"}, sort_keys=True) in badkeys
-        if isbad or not quick or rng.random() < 0.3:
+    badkeys = {_case_key(c) for c, _ in bad}
+    for case, D in gen.get("fv", []):
+        isbad = _case_key(case) in badkeys
+        if not quick or rng.random() < (0.5 if isbad else 0.2):
             tasks.append((case, D, "fv", False, False, 0))
-            nfv += 1
     return tasks
 
 
@@ -500,6 +500,15 @@ def run(chk):
             seen.add(kk)
             chk.sample(describe(t), limit=10)
     rejected = judge_and_report(chk, traces)
+    # the (M) counterexamples of the named deviation D-FV1 against the code's behaviour
+    badkeys = {_case_key(c) for c, _ in bad}
+    hit = {_case_key({"vars": [], "lims": t["lims"], "map": 1, "fvs": t["fvs"]}) for t, c in rejected if t["k"] == "fv" and c == DFV1}
+    replayed = {_case_key({"vars": [], "lims": t["lims"], "map": 1, "fvs": t["fvs"]}) for t in traces if t["k"] == "fv"}
+    chk.notes["dfv1_counterexamples_replayed"] = len(badkeys & replayed)
+    chk.notes["dfv1_counterexamples_reproduced_by_the_code"] = len(badkeys & hit)
+    if badkeys & replayed and not badkeys & hit:
+        chk.log("NOTE: no D-FV1 counterexample of the specification is reproduced by the code any more "
+                "(featureVars.py fixed?): FvLoop(ideal = FALSE) in specs/Instancer.tla no longer transcribes the code")
     report(chk, rejected)
     chk.exhaustive = False
     chk.assumptions += ASSUMPTIONS
